@@ -5,6 +5,7 @@ CONSTANTS
   MODE = "rule"
   Cells <- Cells_tri
   NR = 4
+  NRC = 8
   PairSel = "upper"
   TieRules = {"fwd", "rev"}
   BugEnds = {TRUE}
